@@ -1409,7 +1409,13 @@ class Transformer:
         # Then strike out any duplicate links.
         for link_name, link in links_map.items():
             nname = normalize_name(link_name)
-            if normalized_names.get(nname):
+            if link not in result_zones:
+                # The target was just removed as a duplicate (links to other
+                # missing zones were removed before).
+                _add_reason(
+                    removed_links, link_name,
+                    f'Target Zone "{link}" missing')
+            elif normalized_names.get(nname):
                 _add_reason(
                     removed_links, link_name,
                     'Duplicate normalized name')
